@@ -22,6 +22,10 @@ pub enum Rec {
     SwitchOut { pid: u32, tid: u32, t: u64, preempt: bool },
     /// SAMPLE of the second event `sched:sched_switch` (only written when `CsCfg::sched`)
     Sched { pid: u32, tid: u32, t: u64, kernel: bool, ip: u64, chain: Vec<u64> },
+    /// SAMPLE of an "other event" (`probe:deep_call`: neither the main event nor sched_switch nor rss_stat):
+    /// `handle_other_event_sample` turns it into a marker with the stack attached. The event's attr is written
+    /// exactly when the history contains such a record.
+    Other { pid: u32, tid: u32, t: u64, kernel: bool, ip: u64, chain: Vec<u64> },
 }
 
 /// Context-switch related settings of a recording (`cfg … cs:<letters>:<period>`): which of the attr bits /
@@ -77,7 +81,8 @@ impl Rec {
             | Rec::Mmap2 { t, .. }
             | Rec::SwitchIn { t, .. }
             | Rec::SwitchOut { t, .. }
-            | Rec::Sched { t, .. } => *t,
+            | Rec::Sched { t, .. }
+            | Rec::Other { t, .. } => *t,
         }
     }
 }
@@ -210,6 +215,14 @@ impl History {
                     };
                     format!("sched {pid} {tid} {t} {} {ip} {c}", if *kernel { "k" } else { "u" })
                 }
+                Rec::Other { pid, tid, t, kernel, ip, chain } => {
+                    let c = if chain.is_empty() {
+                        "-".to_string()
+                    } else {
+                        chain.iter().map(|a| a.to_string()).collect::<Vec<_>>().join(",")
+                    };
+                    format!("oev {pid} {tid} {t} {} {ip} {c}", if *kernel { "k" } else { "u" })
+                }
             });
         }
         v
@@ -296,6 +309,18 @@ impl History {
                         w.get(6)?.split(',').filter_map(|s| s.parse().ok()).collect()
                     },
                 }),
+                Some("oev") => h.recs.push(Rec::Other {
+                    pid: n(1)? as u32,
+                    tid: n(2)? as u32,
+                    t: n(3)?,
+                    kernel: w.get(4) == Some(&"k"),
+                    ip: n(5)?,
+                    chain: if w.get(6) == Some(&"-") {
+                        vec![]
+                    } else {
+                        w.get(6)?.split(',').filter_map(|s| s.parse().ok()).collect()
+                    },
+                }),
                 _ => return None,
             }
         }
@@ -350,6 +375,9 @@ pub struct Enc {
 
 const ID_MAIN: u64 = 1;
 const ID_SCHED: u64 = 2;
+const ID_OTHER: u64 = 3;
+/// name of the "other event" (HEADER_EVENT_DESC); the markers made from its samples carry this name
+pub const OTHER_EVENT_NAME: &str = "probe:deep_call";
 
 fn sample_id(e: Enc, pid: u32, tid: u32, t: u64) -> Vec<u8> {
     // trailer with sample_id_all for sample_type TID|TIME|[ID|]CPU
@@ -498,6 +526,7 @@ pub fn encode_record_enc(r: &Rec, e: Enc) -> Vec<u8> {
     match r {
         Rec::Sample { pid, tid, t, kernel, period, ip, chain } => encode_sample(e, ID_MAIN, *pid, *tid, *t, *kernel, *period, *ip, chain),
         Rec::Sched { pid, tid, t, kernel, ip, chain } => encode_sample(e, ID_SCHED, *pid, *tid, *t, *kernel, 1, *ip, chain),
+        Rec::Other { pid, tid, t, kernel, ip, chain } => encode_sample(e, ID_OTHER, *pid, *tid, *t, *kernel, 1, *ip, chain),
         Rec::SwitchIn { pid, tid, t } => encode_switch(e, *pid, *tid, *t, 0),
         Rec::SwitchOut { pid, tid, t, preempt } => {
             encode_switch(e, *pid, *tid, *t, PERF_RECORD_MISC_SWITCH_OUT | if *preempt { PERF_RECORD_MISC_SWITCH_OUT_PREEMPT } else { 0 })
@@ -547,8 +576,9 @@ pub fn encode_record_enc(r: &Rec, e: Enc) -> Vec<u8> {
     }
 }
 
-/// `perf_event_attr` (128 bytes). `which` = 0: the main event, 1: the `sched:sched_switch` tracepoint.
-fn attr_bytes(cs: Option<&CsCfg>, which: u32) -> Vec<u8> {
+/// `perf_event_attr` (128 bytes). `which` = 0: the main event, 1: the `sched:sched_switch` tracepoint, 2: the
+/// other event (a tracepoint); `multi` = the file has more than one event (PERF_SAMPLE_ID in every sample type).
+fn attr_bytes(cs: Option<&CsCfg>, which: u32, multi: bool) -> Vec<u8> {
     const S_IP: u64 = 1;
     const S_TID: u64 = 2;
     const S_TIME: u64 = 4;
@@ -561,10 +591,16 @@ fn attr_bytes(cs: Option<&CsCfg>, which: u32) -> Vec<u8> {
     let mut typ = 1u32; // software
     let mut config = 0u64; // cpu-clock
     let mut period = 1_000_000u64;
+    if multi {
+        sample_type |= S_ID;
+    }
+    if which != 0 {
+        typ = 2; // tracepoint
+        config = if which == 1 { 316 } else { 1234 };
+        period = 1;
+        flags = 1 << 18;
+    }
     if let Some(cs) = cs {
-        if cs.sched {
-            sample_type |= S_ID;
-        }
         if which == 0 {
             period = cs.period;
             if cs.ctx {
@@ -576,11 +612,6 @@ fn attr_bytes(cs: Option<&CsCfg>, which: u32) -> Vec<u8> {
             if cs.hw {
                 typ = 0; // hardware, config 0 = cpu-cycles
             }
-        } else {
-            typ = 2; // tracepoint
-            config = 316;
-            period = 1;
-            flags = 1 << 18;
         }
     }
     let mut v = Vec::new();
@@ -597,13 +628,27 @@ fn attr_bytes(cs: Option<&CsCfg>, which: u32) -> Vec<u8> {
     v
 }
 
-/// HEADER_EVENT_DESC: names and ids of the two events (only written for recordings with a second event)
-fn event_desc_bytes(cs: &CsCfg) -> Vec<u8> {
+/// the events of a recording besides the main event: (which, name, id), in attr order
+fn extra_events(h: &History) -> Vec<(u32, &'static str, u64)> {
     let mut v = Vec::new();
-    v.extend_from_slice(&2u32.to_le_bytes());
+    if h.cs.as_ref().map(|c| c.sched).unwrap_or(false) {
+        v.push((1u32, "sched:sched_switch", ID_SCHED));
+    }
+    if h.recs.iter().any(|r| matches!(r, Rec::Other { .. })) {
+        v.push((2u32, OTHER_EVENT_NAME, ID_OTHER));
+    }
+    v
+}
+
+/// HEADER_EVENT_DESC: names and ids of the events (only written for recordings with more than one event)
+fn event_desc_bytes(cs: Option<&CsCfg>, extra: &[(u32, &'static str, u64)]) -> Vec<u8> {
+    let mut v = Vec::new();
+    v.extend_from_slice(&(1 + extra.len() as u32).to_le_bytes());
     v.extend_from_slice(&128u32.to_le_bytes());
-    for (which, name, id) in [(0u32, "cpu-clock", ID_MAIN), (1, "sched:sched_switch", ID_SCHED)] {
-        v.extend_from_slice(&attr_bytes(Some(cs), which));
+    let mut events = vec![(0u32, "cpu-clock", ID_MAIN)];
+    events.extend_from_slice(extra);
+    for (which, name, id) in events {
+        v.extend_from_slice(&attr_bytes(cs, which, true));
         v.extend_from_slice(&1u32.to_le_bytes()); // nr_ids
         let mut n = name.as_bytes().to_vec();
         n.push(0);
@@ -619,7 +664,8 @@ fn event_desc_bytes(cs: &CsCfg) -> Vec<u8> {
 /// records are interleaved at random, keeping the relative order of records with equal timestamps, so
 /// that the reader's sorter (key = (timestamp, file offset)) emits exactly `recs` in order.
 pub fn write_perf_data(h: &History, path: &Path, layout_rng: &mut Rng) {
-    let two_events = h.cs.as_ref().map(|c| c.sched).unwrap_or(false);
+    let extra = extra_events(h);
+    let two_events = !extra.is_empty();
     let enc = Enc { ncpu: h.ncpu, with_id: two_events, cpu_wide: h.cs.as_ref().map(|c| c.wide).unwrap_or(false) };
     let mut data = Vec::new();
     let n = h.recs.len();
@@ -670,12 +716,12 @@ pub fn write_perf_data(h: &History, path: &Path, layout_rng: &mut Rng) {
     }
 
     let header_size: u64 = 104;
-    let mut attr_section = attr_bytes(h.cs.as_ref(), 0);
+    let mut attr_section = attr_bytes(h.cs.as_ref(), 0, two_events);
     attr_section.extend_from_slice(&0u64.to_le_bytes()); // ids offset
     attr_section.extend_from_slice(&0u64.to_le_bytes()); // ids size
     let attr_entry_size = attr_section.len() as u64;
-    if two_events {
-        attr_section.extend_from_slice(&attr_bytes(h.cs.as_ref(), 1));
+    for (which, _, _) in &extra {
+        attr_section.extend_from_slice(&attr_bytes(h.cs.as_ref(), *which, true));
         attr_section.extend_from_slice(&0u64.to_le_bytes());
         attr_section.extend_from_slice(&0u64.to_le_bytes());
     }
@@ -687,7 +733,7 @@ pub fn write_perf_data(h: &History, path: &Path, layout_rng: &mut Rng) {
     if two_events {
         const FEATURE_EVENT_DESC: u64 = 12;
         feat_bits[0] |= 1 << FEATURE_EVENT_DESC;
-        feats.push(event_desc_bytes(h.cs.as_ref().unwrap()));
+        feats.push(event_desc_bytes(h.cs.as_ref(), &extra));
     }
     if h.ref_time != 0 {
         const FEATURE_SAMPLE_TIME: u64 = 21;
@@ -828,7 +874,8 @@ impl PidSubst {
                 | Rec::Mmap2 { pid, tid, .. }
                 | Rec::SwitchIn { pid, tid, .. }
                 | Rec::SwitchOut { pid, tid, .. }
-                | Rec::Sched { pid, tid, .. } => {
+                | Rec::Sched { pid, tid, .. }
+                | Rec::Other { pid, tid, .. } => {
                     *pid = f(pid);
                     *tid = f(tid);
                 }
@@ -953,6 +1000,8 @@ pub struct View {
     pub pstart: u64,
     pub pend: Option<u64>,
     pub samples: Vec<OutSample>,
+    /// markers of type "Other event": (start time, cause stack if the marker has one)
+    pub markers: Vec<(u64, Option<Vec<Frame>>)>,
 }
 
 fn ms_to_ns(v: &Value) -> Option<u64> {
@@ -1014,14 +1063,9 @@ pub fn extract_views_subst(p: &Value, subst: &PidSubst) -> Result<Vec<View>, Str
                 Frame::Label(subst.back_str(name))
             }
         };
-        let mut samples = Vec::new();
-        let s = &t["samples"];
-        let n = s["length"].as_u64().unwrap_or(0) as usize;
-        let mut time = 0u64;
-        for i in 0..n {
-            time += ms_to_ns(&s["timeDeltas"][i]).ok_or("bad delta")?;
+        let stack_frames = |start: Option<u64>| -> Result<Vec<Frame>, String> {
             let mut frames = Vec::new();
-            let mut cur = s["stack"][i].as_u64();
+            let mut cur = start;
             let mut guard = 0;
             while let Some(si) = cur {
                 frames.push(frame_of(st["frame"][si as usize].as_u64().unwrap_or(0) as usize));
@@ -1032,6 +1076,30 @@ pub fn extract_views_subst(p: &Value, subst: &PidSubst) -> Result<Vec<View>, Str
                 }
             }
             frames.reverse();
+            Ok(frames)
+        };
+        // markers made by `handle_other_event_sample` (type "Other event"), with their cause stack
+        let mut markers = Vec::new();
+        let m = &t["markers"];
+        for i in 0..m["length"].as_u64().unwrap_or(0) as usize {
+            let d = &m["data"][i];
+            if d["type"].as_str() != Some("Other event") {
+                continue;
+            }
+            let start = ms_to_ns(&m["startTime"][i]).unwrap_or(0);
+            let stack = match d["cause"]["stack"].as_u64() {
+                Some(si) => Some(stack_frames(Some(si))?),
+                None => None,
+            };
+            markers.push((start, stack));
+        }
+        let mut samples = Vec::new();
+        let s = &t["samples"];
+        let n = s["length"].as_u64().unwrap_or(0) as usize;
+        let mut time = 0u64;
+        for i in 0..n {
+            time += ms_to_ns(&s["timeDeltas"][i]).ok_or("bad delta")?;
+            let frames = stack_frames(s["stack"][i].as_u64())?;
             samples.push(OutSample {
                 t: time,
                 weight: s["weight"][i].as_i64().unwrap_or(0),
@@ -1051,6 +1119,7 @@ pub fn extract_views_subst(p: &Value, subst: &PidSubst) -> Result<Vec<View>, Str
             pstart: ms_to_ns(&t["processStartupTime"]).unwrap_or(0),
             pend: ms_to_ns(&t["processShutdownTime"]),
             samples,
+            markers,
         });
     }
     Ok(views)
@@ -1159,6 +1228,21 @@ pub fn render(proj: Proj, views: &[View]) -> Vec<String> {
             }
             out.push(l);
         }
+        // marker stacks (extra lines; only recordings with `oev` ops have such markers)
+        if proj != Proj::C17 {
+            let mut ms: Vec<String> = v
+                .markers
+                .iter()
+                .map(|(t, st)| match (proj, st) {
+                    (_, None) => format!("m {t} nostack"),
+                    (Proj::C14, Some(f)) => format!("m {t} {}", show_frames_c14(f)),
+                    (Proj::C02 | Proj::Full, Some(f)) => format!("m {t} {}", show_frames(f)),
+                    (_, Some(_)) => format!("m {t}"),
+                })
+                .collect();
+            ms.sort();
+            out.extend(ms);
+        }
     }
     out
 }
@@ -1197,6 +1281,7 @@ pub fn count_history(h: &History, stats: &mut Stats) {
                 Rec::SwitchOut { preempt: true, .. } => "rec_switch_out_preempt",
                 Rec::SwitchOut { .. } => "rec_switch_out",
                 Rec::Sched { .. } => "rec_sched_switch",
+                Rec::Other { .. } => "rec_other_event",
             })
             .or_insert(0) += 1;
     }
@@ -1435,7 +1520,8 @@ impl LifeTrack {
             | Rec::Mmap2 { pid, tid, .. }
             | Rec::SwitchIn { pid, tid, .. }
             | Rec::SwitchOut { pid, tid, .. }
-            | Rec::Sched { pid, tid, .. } => (*pid, *tid),
+            | Rec::Sched { pid, tid, .. }
+            | Rec::Other { pid, tid, .. } => (*pid, *tid),
             Rec::Fork { ppid, ptid, .. } => (*ppid, *ptid),
         };
         self.exited.contains(&(pid, tid)) || (self.exited.contains(&(pid, pid)) && !self.procs.contains_key(&pid))
@@ -1497,7 +1583,7 @@ impl LifeTrack {
                     self.ensure_thread(*pid, *tid);
                 }
             }
-            Rec::Sched { pid, tid, .. } => self.ensure_thread(*pid, *tid),
+            Rec::Sched { pid, tid, .. } | Rec::Other { pid, tid, .. } => self.ensure_thread(*pid, *tid),
         }
     }
 }
@@ -2032,7 +2118,7 @@ fn out_of_order_once(h: &mut History, rng: &mut Rng, kinds: OooKinds) {
         _ => false,
     };
     let set_time = |r: &mut Rec, nt: u64| match r {
-        Rec::Sample { t, .. } | Rec::Fork { t, .. } | Rec::Exit { t, .. } | Rec::Comm { t, .. } | Rec::Mmap2 { t, .. } | Rec::SwitchIn { t, .. } | Rec::SwitchOut { t, .. } | Rec::Sched { t, .. } => *t = nt,
+        Rec::Sample { t, .. } | Rec::Fork { t, .. } | Rec::Exit { t, .. } | Rec::Comm { t, .. } | Rec::Mmap2 { t, .. } | Rec::SwitchIn { t, .. } | Rec::SwitchOut { t, .. } | Rec::Sched { t, .. } | Rec::Other { t, .. } => *t = nt,
     };
     for k in 2..rounds.len() {
         let whole_round = rng.chance(1, 6);
